@@ -161,3 +161,39 @@ func (c *Ctx) EveryIteration(rule string, fn *ssa.Function, overGlob string, eff
 	}
 	c.add("loop", rule, construct, Held, c.P.InstrPos(H.Instrs[len(H.Instrs)-1]), fmt.Sprintf("every iteration reaches the effect (%d site block(s)); the loop ends only by exhaustion; skip edges allowed: %v", n, dedup(skipDescr)))
 }
+
+// NextIterationGuarded decides: the loop with header H goes on to its next iteration (a path from the start of the
+// body back to H) only across an edge establishing `guard` — "the scan continues only past elements that passed
+// the test", whatever the loop form (index loop, range loop over a sub-slice).
+func (c *Ctx) NextIterationGuarded(rule string, fn *ssa.Function, H *ssa.BasicBlock, label, guard string) {
+	fname := c.P.Name(fn)
+	construct := fmt.Sprintf("%s#%s:next-iteration⇐%s", fname, label, guard)
+	removed, descr := guardEdges(fn, parseGuard(guard))
+	body := H.Succs[0]
+	seen := map[*ssa.BasicBlock]bool{}
+	var reach func(b *ssa.BasicBlock) bool
+	reach = func(b *ssa.BasicBlock) bool {
+		if b == H {
+			return true
+		}
+		if seen[b] {
+			return false
+		}
+		seen[b] = true
+		for si, s := range b.Succs {
+			if removed[edge{b, si}] {
+				continue
+			}
+			if reach(s) {
+				return true
+			}
+		}
+		return false
+	}
+	pos := c.P.InstrPos(H.Instrs[len(H.Instrs)-1])
+	if reach(body) {
+		c.add("loop", rule, construct, Violated, pos, "the loop can continue with the next element without "+guard)
+		return
+	}
+	c.add("loop", rule, construct, Held, pos, fmt.Sprintf("%d guard edge(s) [%s]; no path from the body back to the loop header avoids them", len(removed), strings.Join(dedup(descr), "; ")))
+}
